@@ -42,13 +42,17 @@ def relay_universe():
     ]
 
 
-WEIRD_SYMTAB = {"i5": 5, "bT": True, "nN": None, "f15": 1.5, "lst": ["x", 1, None], "neg": -7, "big": 2 ** 53, "obj": {"k": "v"}, "e0": ""}
+WEIRD_SYMTAB = {"i1": 1, "f1": 1.0, "i0": 0, "bF": False, "f0": 0.0, "i5": 5, "bT": True, "nN": None, "f15": 1.5, "lst": ["x", 1, None], "neg": -7, "big": 2 ** 53, "obj": {"k": "v"}, "e0": ""}
 
 
 def weird_events():
     return [
         E("w1", "A", 1, 32, [["t", "a"], ["n", "i5", "bT", "nN", "f15"], ["q", "lst", "obj"], ["e0"], ["t", "e0", "neg", "big"]]),
         E("w2", "B", 7, 33, [["t", "a"], ["r", "f15", "i5"]]),
+        # tags that are equal in Python but differ as JSON (1 / true / 1.0, 0 / false / 0.0)
+        E("w3", "A", 1, 34, [["t", "a"], ["n", "i1"], ["z", "i0"]]),
+        E("w4", "B", 1, 35, [["t", "a"], ["n", "bT"], ["z", "bF"]]),
+        E("w5", "A", 7, 36, [["t", "a"], ["n", "f1"], ["z", "f0"]]),
     ]
 
 
